@@ -35,7 +35,8 @@ JVM_ENV = {'JDK_JAVA_OPTIONS': '-XX:ParallelGCThreads=2 -XX:CICompilerCount=2'}
 
 DEF = dict(Mode='"cli"', Emit='FALSE', MaxMain=2, MaxInc=0, MainSel=[1, 25],
            IncSel=[], TgtSel=[1, 2], SampleMod=1, SampleRem=0,
-           ListFirstWins='FALSE', NegNoop='FALSE', SpliceLeaks='FALSE')
+           ListFirstWins='FALSE', NegNoop='FALSE', SpliceLeaks='FALSE',
+           NegSticky='FALSE', GenSel=[], PreSel=[0])
 
 CLI_ALL = list(range(1, 46))
 INVS = {'cli': ['FirstWins', 'Accumulates', 'IncludeInPlace',
@@ -105,6 +106,12 @@ def plan(ctx):
                              IncSel=[1, 3, 25, 29, 32], **smp(24 if q else 2))),
         ('tag3', 'cli', dict(MaxMain=3, TgtSel=[1, 2],
                              MainSel=[2, 3, 22, 25, 41])),
+        # generated Host / Match lines: all pairs (and some triples) of
+        # criteria in every negation placement x targets giving every truth
+        # combination; alone, after "Tag t1", after "Hostname ra"
+        ('gencli', 'cli', dict(GenSel=[1, 2, 3], PreSel=[0, 29, 41],
+                               TgtSel=[1, 2, 3, 4], **smp(2 if q else 1))),
+        ('gensrv', 'srv', dict(GenSel=[4], PreSel=[0, 52])),
         ('srv3', 'srv', dict(MaxMain=3, MaxInc=1,
                              MainSel=[7, 43, 46, 47, 48, 49, 50, 51, 52, 53],
                              IncSel=[46, 48, 50, 51], **smp(12 if q else 1))),
@@ -125,6 +132,8 @@ SENSITIVITY = [
                           ListFirstWins='TRUE'), 'Accumulates'),
     ('negation', 'cli', dict(MaxMain=2, MainSel=[12, 14, 16, 23, 25, 27],
                              TgtSel=[1, 3], NegNoop='TRUE'), 'FirstWins'),
+    ('sticky', 'cli', dict(GenSel=[1], PreSel=[0], TgtSel=[1, 2, 3, 4],
+                           NegSticky='TRUE'), 'FirstWins'),
     ('splice', 'cli', dict(MaxMain=3, MaxInc=2, MainSel=[43, 25, 26],
                            IncSel=[2, 25, 5], SpliceLeaks='TRUE'),
      'IncludeRestores'),
@@ -320,13 +329,14 @@ class Replayer:
                             f'server config {world.texts()} user {user!r}: '
                             f'rule gives {want}, asyncssh gives {obs} '
                             f'(explained by: {", ".join(bits(fb))})', replay)
-            elif not unsafe and substituted:
+            elif not unsafe:
                 self.violation(
                     {'module': 'Config', 'files': world.texts(),
                      'user': user},
-                    f'server config {world.texts()} user {user!r}: %u must '
-                    f'be replaced once, literally: expected {want}, got '
-                    f'{obs}', replay)
+                    f'server config {world.texts()} user {user!r}: the '
+                    f'lines whose Match conditions hold (with %u replaced '
+                    f'once, literally) give AuthorizedKeysFile = {want}, '
+                    f'asyncssh gives {obs}', replay)
             else:
                 self.ctx.divergence(f'srv: {world.texts()} user {user!r}: '
                                     f'model {want}, code {obs}')
